@@ -37,6 +37,7 @@ type thread struct {
 	// sees them quiescent, and choosing between them is an unbounded chain of free choices.
 	spinMode  bool
 	sinceSpin int
+	spinSeen  int // back edges of condition-less loops taken since the thread last blocked (see Sched.SpinFree)
 	lastRun   int
 	settling bool // parked in Settle (counts as quiescent for other settlers)
 	fn      func()
@@ -67,6 +68,15 @@ type Sched struct {
 	blockedWhy  []string
 
 	TickBudget int
+	// SpinFree: a condition-less `for {` loop is a polling candidate, and a thread that goes
+	// round one is made to let the others go first (fair scheduling).  But most such loops
+	// in the code under test are not polling loops (a parser's package loop, one turn per
+	// pivot hop): forcing the others to run first at their back edge removes exactly the
+	// schedules in which the looping thread gets through a window undisturbed.  With
+	// SpinFree = n the first n back edges a thread takes between two blocking operations
+	// are ordinary steps; only a loop that keeps turning is treated as polling.  0 (the
+	// default, used by the relay harness whose loops do poll) yields at every back edge.
+	SpinFree int
 	ticks      int
 	noExplore  bool
 }
@@ -317,6 +327,9 @@ func (s *Sched) yield(why string, pred func() bool) {
 		if pred != nil || t.sinceSpin > 64 {
 			t.spinMode = false
 		}
+		if pred != nil {
+			t.spinSeen = 0
+		}
 	}
 	s.back <- struct{}{}
 	<-t.wake
@@ -377,6 +390,12 @@ func Tick(spin bool) {
 		panic(abortT{})
 	}
 	if spin {
+		if s.SpinFree > 0 {
+			s.cur.spinSeen++
+			if s.cur.spinSeen <= s.SpinFree {
+				return
+			}
+		}
 		s.cur.yielded = true
 		s.cur.spinMode = true
 		s.cur.sinceSpin = 0
